@@ -130,7 +130,7 @@ func (x *expander) q(name string) string { // qualified co identifier
 	return x.co + "." + name
 }
 
-var macros = []string{"GENCALL", "YIELDFROMT", "YIELDFROM", "YIELDT", "YIELD", "RANGEITER", "RETURNX", "ITERFIELD", "ITER", "GENLIT", "GENM", "GEN"}
+var macros = []string{"GENCALL", "YIELDVALUE", "YIELDFROMT", "YIELDFROM", "YIELDT", "YIELD", "RANGEITER", "RETURNX", "ITERFIELD", "ITER", "GENLIT", "GENM", "GEN"}
 
 // expand rewrites every macro occurrence, innermost arguments first
 func (x *expander) expand(s string) string {
@@ -195,6 +195,12 @@ func (x *expander) macro(m string, args []string, after string) (string, int) {
 			return "y.Yield((" + args[0] + ")(" + args[1] + "))", 0
 		}
 		return x.q("Yield") + "[" + args[0] + "](" + args[1] + ")", 0
+	case "YIELDVALUE":
+		// the yield function as a value: YIELDVALUE(T)   co: co.Yield[T]   ref: y.Yield
+		if x.ref {
+			return "y.Yield", 0
+		}
+		return x.q("Yield") + "[" + args[0] + "]", 0
 	case "YIELDFROMT":
 		// a delegation with an explicit type argument: YIELDFROMT(T, it)
 		if x.ref {
